@@ -11,7 +11,8 @@ tier=${TIER:-quick}
 cd /verif
 if ! git -C /repo diff --quiet; then echo "/repo has local changes; refusing"; exit 2; fi
 git -C /repo apply /verif/seeded/$name/patch.diff || { echo "patch failed"; exit 2; }
-trap 'git -C /repo checkout -- . ' EXIT
+mkdir -p /verif/build/evbak; cp -a /verif/evidence/. /verif/build/evbak/ 2>/dev/null
+trap 'git -C /repo checkout -- . ; cp -a /verif/build/evbak/. /verif/evidence/ 2>/dev/null' EXIT
 for p in "${props[@]}"; do
   out=$(python3 vrun.py $p $tier "$@" 2>&1); rc=$?
   if echo "$out" | grep -q '^VIOLATION'; then echo "DETECTED $name by $p ($tier) rc=$rc"; echo "$out" | grep -A1 '^VIOLATION' | cut -c1-400 | head -6
